@@ -358,6 +358,7 @@ func (e *engine) Run(src *vs.Source, tier string, idx int64) (res *simkit.RunRes
 		sigSeen[sig] = true
 		viols = append(viols, simkit.Violation{Class: class, Sig: sig, Detail: sig + ": " + detail})
 	}
+	vs.PoolReset()
 	sc, err := makeScenario(src, tier, idx)
 	if err != nil {
 		res.Violations = []simkit.Violation{{Class: "machinery", Sig: "machinery/scenario", Detail: err.Error()}}
@@ -371,6 +372,7 @@ func (e *engine) Run(src *vs.Source, tier string, idx int64) (res *simkit.RunRes
 	} else {
 		res.Stats["pools_lattice_class"]++
 	}
+	res.Stats["pools_with_revision_operand"] += int64(p.revisions)
 	if p.frozen {
 		res.Stats["pools_in_frozen_memory"]++
 	} else {
@@ -409,6 +411,29 @@ func (e *engine) Run(src *vs.Source, tier string, idx int64) (res *simkit.RunRes
 			}
 			if strings.HasPrefix(r.Digest, "NOT-RETAINED") {
 				fail("result-not-retained", name, "", opString(op)+": "+r.Digest)
+			}
+		}
+	}
+	// ---- R1': the same calls again, in reverse order, same process: "calling
+	// the same operation again with the same arguments returns a bit-identical
+	// result" must not depend on what was called in between.
+	for t := len(sc.scripts) - 1; t >= 0 && len(viols) == 0; t-- {
+		for i := len(sc.scripts[t]) - 1; i >= 0; i-- {
+			op := &sc.scripts[t][i]
+			if skip[t][i] || ref[t][i].Fault != "" {
+				continue
+			}
+			var r opResult
+			markOp(op)
+			steps, _, pv, stack := vs.Solo(opBudget, func() { r = execOp(op, p, op.Scribble) })
+			res.Stats["logical_steps"] += steps
+			res.Stats["repeat_executions"]++
+			if pv != nil {
+				res.Violations = []simkit.Violation{{Class: "machinery", Sig: "machinery/execOp", Detail: fmt.Sprintf("%v\n%s", pv, stack)}}
+				return res
+			}
+			if r.Digest != ref[t][i].Digest {
+				fail("result-differs", catalogue[op.Entry].name, "repeat", fmt.Sprintf("%s executed twice, alone, in one process (other calls in between): first\n  %s\nthen\n  %s", opString(op), clipAround(ref[t][i].Digest, r.Digest), clipAround(r.Digest, ref[t][i].Digest)))
 			}
 		}
 	}
